@@ -14,7 +14,10 @@ import time
 
 REPO = os.environ.get("VERIF_REPO", "/repo")
 VERIF = os.path.dirname(os.path.dirname(os.path.abspath(__file__)))
-BROOT = os.path.join(VERIF, ".build")
+# VERIF_SCRATCH (experiments against scratch copies of the repository only, e.g.
+# tools/try_mutant.sh): builds, replay files and evidence go there instead of /verif
+OUTDIR = os.environ.get("VERIF_SCRATCH") or VERIF
+BROOT = os.path.join(OUTDIR, ".build")
 SRC_DIRS = ["src", "include", "cmake", "cfg"]
 SRC_FILES = ["CMakeLists.txt"]
 TOOLS = ["ovniemu", "ovnidump", "ovnisort", "ovnitop", "ovnievents"]
